@@ -356,6 +356,9 @@ seqs:
 		if expired {
 			break
 		}
+		if strings.HasPrefix(f.Prog.Name, c10PoolPrefix) {
+			continue // constant-pool sweep: round trip only
+		}
 		res.Distinct += c10Faults(tb, f, preps, submit)
 		sup.Drain()
 	}
